@@ -101,7 +101,7 @@ pub fn check_parent(c: &Cell, deep_pick: u16, st: &mut Stats) -> Result<(), Stri
 pub fn run(tier: Tier, seed: u64) -> Report {
     let mut rep = Report::new("C12", tier, seed, RULE);
     rep.assume("planar pentagons from get_pentagon; equal-area projection makes planar area ratios equal spherical ones (C16)");
-    let max_ex = tier.pick(3, 5);
+    let max_ex = tier.pick(4, 6);
     for res in 0..=max_ex {
         let n = codec::num_cells(res) as u64;
         let name = format!("exhaustive-r{}", res);
@@ -114,7 +114,7 @@ pub fn run(tier: Tier, seed: u64) -> Report {
     let r = run_pbt(
         "parents",
         seed,
-        tier.pick(2_000, 100_000),
+        tier.pick(20_000, 600_000),
         || (gen::cell_spec(0, 28), any::<u16>()).boxed(),
         |(spec, pick), st| check_parent(&spec.cell(), *pick, st),
         |(spec, pick)| json!({"cell": gen::cellspec_json(spec), "pick": pick}),
